@@ -284,7 +284,7 @@ func (d *DBI) indexData() error {
 			offset += n
 			d.flags = v
 		default:
-			n, err := skipTag(data, wireType)
+			n, err := skipTag(data[offset:], wireType)
 			if err != nil {
 				return err
 			}
